@@ -1210,4 +1210,26 @@ theorem glue_file_view_run (root : Mod) (evs : List (Event Mod Content))
 
 end Glue
 
+/-! ## Epochs -/
+
+section Epochs
+variable {Mod Content Sig Err : Type} [DecidableEq Mod]
+
+theorem at_eq_of_stable (e : EChecker Mod Content Sig Err) (h : NamesStable e) (t t' : Nat) :
+    e.at t = e.at t' := by
+  have : e.sigAt t = e.sigAt t' := funext fun m => funext fun c => h t t' m c
+  simp only [EChecker.at, this]
+
+theorem runE_eq_run (e : EChecker Mod Content Sig Err) (h : NamesStable e) (t : Nat)
+    (ops : List (Op Mod Content)) (s : State Mod Content Sig Err) :
+    runE e t ops s = run (e.at 0) ops s := by
+  induction ops generalizing t s with
+  | nil => rfl
+  | cons op ops ih =>
+    simp only [runE, run, List.foldl_cons]
+    rw [ih, at_eq_of_stable e h t 0]
+    rfl
+
+end Epochs
+
 end SamVerif.Incremental
